@@ -15,7 +15,7 @@ META = {
                    "column, names passed to the parser, single column by legend name, csv inverse of to_csv).",
     "decided": ["np.save<->np.load, save_npz<->load_npz per artefact, getter result stored unmodified, same pairing in the workflow rule",
                 "skiprows=13 and comment='@' (necessary under the property's header grammar)", "first data row kept (no header row)",
-                "legend scan s0..s9, appended in file order after 'Time [ps]', passed as column names", "single column selected by name from "
+                "legend scan s0..s9, appended in file order after 'Time [ps]', passed as column names", "legend scan is offered every line of the file from the first one (no slice / islice / lines consumed beforehand)", "single column selected by name from "
                 "the same frame, in row order", "csv read with index_col=0"],
     "not_decided": ["value-exactness of numpy / scipy / pandas serialisation"],
     "trusted": ["numpy.save/load and scipy.sparse.save_npz/load_npz round-trip values, pattern and entry order",
